@@ -29,6 +29,12 @@ Theorem C17_canonical : forall (name : string) (l : Z), supported name l ->
               go_list_literal out = Some (bytes_of_string name, list_of l).
 Proof. exact tool_reproduces_lists. Qed.
 
+(* each list is fetched as <url><file>.txt, split at LF, and written to internal/wordlist/<file>.go *)
+Theorem C17_paths :
+  tool_path_fmt = "%s/%s.go|dirName,path"%string /\ tool_url_fmt = "%s%s.txt|url,path"%string /\
+  tool_dir = "internal/wordlist"%string /\ tool_split_sep = [x0a].
+Proof. exact tool_paths_ok. Qed.
+
 Print Assumptions C17_faithful.
 Print Assumptions C17_canonical.
 Print Assumptions C17_langs.
